@@ -253,9 +253,13 @@ func (p *Program) reach(starts []Loc, target InstrPred, cut CutSpec, sensitive b
 						continue
 					}
 
-					if f, ok := env.facts[aKey]; ok {
-						if f.truth != want {
+					if t, ok := env.known(aKey); ok {
+						if t != want {
 							continue
+						}
+
+						if _, direct := env.facts[aKey]; !direct && aDecided == nil && sense.multi[aKey] {
+							env = env.withFact(aKey, want, abx, aby)
 						}
 					} else if aDecided == nil && sense.multi[aKey] {
 						env = env.withFact(aKey, want, abx, aby)
